@@ -166,6 +166,32 @@ def op_directvars(query, names):
     return enc_varmap(d)
 
 
-for _n, _f in (('dictvars', op_dictvars), ('attrvars', op_attrvars), ('directvars', op_directvars), ('clidialect', op_clidialect), ('starcount', op_starcount), ('starvars', op_starvars), ('starmarker', op_starmarker), ('trsel', op_trsel), ('updpairs', op_updpairs),
+def _dec_map(t):
+    from common import dec_table
+    return dict((r[0], rbql_engine.VariableInfo(initialize=True, index=int(r[1]))) for r in dec_table(t))
+
+
+def op_joinresolve(inm, jm, pairs):
+    from common import dec_table
+    try:
+        lhs, rhs = rbql_engine.resolve_join_variables(_dec_map(inm), _dec_map(jm), [tuple(r) for r in dec_table(pairs)], [])
+    except rbql_engine.RbqlParsingError as e:
+        msg = str(e)
+        return 'err ambiguous' if 'mbiguous' in msg else 'err no-input-field' if 'Input table does not have' in msg else 'err no-join-field' if 'Join table does not have' in msg else 'err other'
+    enc_l = ','.join('N' if x == 'NR' else re.search(r'record_a, (\d+)\)', x).group(1) for x in lhs) if lhs else '!'
+    enc_r = ','.join('N' if x == -1 else str(x) for x in rhs) if rhs else '!'
+    return 'ok %s %s' % (enc_l, enc_r)
+
+
+def op_exceptcols(js, inm, text):
+    try:
+        _h, code = rbql_engine.translate_except_expression(dec_str(text), _dec_map(inm), [], None)
+    except rbql_engine.RbqlParsingError:
+        return 'err unknown'
+    m = re.fullmatch(r'select_except\(record_a, \[([0-9,]*)\]\)', code)
+    return 'ok ' + (m.group(1) if m.group(1) else '!')
+
+
+for _n, _f in (('joinresolve', op_joinresolve), ('exceptcols', op_exceptcols), ('dictvars', op_dictvars), ('attrvars', op_attrvars), ('directvars', op_directvars), ('clidialect', op_clidialect), ('starcount', op_starcount), ('starvars', op_starvars), ('starmarker', op_starmarker), ('trsel', op_trsel), ('updpairs', op_updpairs),
                ('basicvars', op_basicvars), ('arrayvars', op_arrayvars), ('selinfos', op_selinfos)):
     impl_py.register(_n, _f)
